@@ -37,6 +37,7 @@ class Shared:
         self.seq = ctx.Value("q", 0)
         self.sleeping = ctx.Value("i", 0)
         self.progress = RawValue("q", 0)
+        self.begins = RawValue("q", 0)      # workers that entered begin() (written under the lock of seq)
 
     def log(self, ev, **kw):
         pid = os.getpid()
@@ -50,6 +51,8 @@ class Shared:
             n = self.seq.value
             self.seq.value = n + 1
             kw["seq"] = n
+            if ev == "begin_enter":
+                self.begins.value += 1
             os.write(fd, (json.dumps(kw) + "\n").encode())
 
     def nap(self, seconds):
@@ -374,6 +377,15 @@ class Watchdog(threading.Thread):
         now = time.monotonic()
         if self._livelock_tick(cur, now, sid, me):
             return True
+        b0 = self.state.get("begins_at_exit")
+        if b0 is not None and self.state.get("phase") == "pool_exit" and self.sh.begins.value - b0 > self.state.get("storm_bound", 12):
+            # bounded progress while the context is left: nobody has any use for a new worker now (at most the replacements of
+            # the last call may still be on their way into begin()), and here they are started by the dozen - this never ends
+            procs = _session_procs(sid, me)
+            self.state["finish"]("deadlock", {"phase": "pool_exit", "call": self.state.get("call"), "stacks": _stack_dump(),
+                                              "processes": [(p, s_) for p, s_, _ in procs], "storm": True,
+                                              "workers_started_while_leaving": int(self.sh.begins.value - b0)})
+            return True
         if cur != self._last or cur[2] != 0:
             self._last = cur
             self._since = now
@@ -468,11 +480,6 @@ def run_case_here(case, outpath, scratch):
             held_fds = [os.open("/dev/null", os.O_RDONLY) for _ in range(case["many_fds"])]
         except OSError:
             pass
-    if case.get("broken_stderr"):
-        # stderr is a pipe whose reader is gone (a supervisor that died): writing to it raises BrokenPipeError
-        r_, w_ = os.pipe()
-        os.close(r_)
-        sys.stderr = os.fdopen(w_, "w")
     start_method = case.get("start", "fork")
     plan_items = [[[r, q, rel, o], [k, a]] for r, q, rel, o, k, a in case.get("plan", [])]
     tier = case.get("tier", "quick")
@@ -541,6 +548,8 @@ def run_case_here(case, outpath, scratch):
         wq = case.get("wq", 1.0)
         rq = case.get("rq")
         quota = case.get("quota") or math.inf
+        if case.get("frac_quota") and quota != math.inf:
+            quota = quota + case["frac_quota"]      # a chunk limit that is no whole number (2.5): legal for a float parameter
         if case.get("float_quota") and quota != math.inf:
             quota = float(quota)           # the parameter is annotated as float: 3.0 is as legal as 3
         if case.get("nofile"):
@@ -627,13 +636,23 @@ def run_case_here(case, outpath, scratch):
                     for y in gen:
                         got_one.release()
                         rec["yields"].append(_compact(y, call))
-                    rec["completed"] = True
+                        if call.get("abandon_after") is not None and len(rec["yields"]) >= call["abandon_after"]:
+                            # the caller stops consuming here and keeps the suspended generator (as a traceback would): the
+                            # pool is left with this call unfinished
+                            state["kept_generators"] = state.get("kept_generators", []) + [gen]
+                            rec["abandoned"] = True
+                            sh.log("call_abandoned", call=ci)
+                            break
+                    else:
+                        rec["completed"] = True
                 except instr.InjectedFault:
                     raise
                 except Exception as e:
                     rec["exception"] = f"{type(e).__name__}: {e}"
                     sh.log("call_exception", call=ci, exc=type(e).__name__)
                     rec["traceback"] = traceback.format_exc()[-1500:]
+                    break
+                if rec.get("abandoned"):
                     break
                 sh.log("call_end", call=ci)
                 rec["after"] = {}
@@ -654,6 +673,8 @@ def run_case_here(case, outpath, scratch):
             if inner_pool is not None:
                 state["phase"] = "inner_pool_exit"
                 inner_pool.__exit__(None, None, None)
+            state["storm_bound"] = 2 * case["workers"] + 8
+            state["begins_at_exit"] = sh.begins.value
             state["phase"] = "pool_exit"
             sh.log("pool_exit_enter", pids=[p.pid for p in pool.procs])
             if body_raises:
@@ -664,6 +685,8 @@ def run_case_here(case, outpath, scratch):
             sh.log("body_exception_propagated")
         state["pool"] = None
         sh.log("pool_exit_return")
+        if state.get("kept_generators"):
+            sh.nap(0.7)        # whatever the threads of the unfinished call still do (start a worker?) shows up in the log
         # who is still running? (every pid that ever logged begin_enter)
         pids = set()
         try:
@@ -1048,6 +1071,9 @@ def deadlock_finding(case, result):
         else:
             mech = "deadlock-other"
     died = result.get("thread_exceptions") or []
+    if w.get("storm"):
+        return mech, (f"leaving the pool context does not end: {w.get('workers_started_while_leaving')} new workers entered begin() "
+                      f"after __exit__ was called (the pool has {case.get('workers')} workers and no work is wanted any more), and more keep coming"), phase
     summary = (f"{'a thread of the pool died (' + died[0][:160] + '); ' if died else ''}"
                f"{'no progress for ' + str(w.get('quiet_s')) + ' s (nothing logged, no other process used cpu, this process only repeats a timeout loop: ' + str(w.get('statements_in_window')) + ' statements)' if w.get('livelock') else 'quiescent state (' + str(w.get('quiet_s')) + 's, all processes blocked)'} in phase {phase}"
                f"{'' if w.get('call') is None else ' of call ' + str(w.get('call'))}: consumer at "
@@ -1096,7 +1122,7 @@ def lifecycle_findings(case, result):
         quota = case.get("quota") or case.get("functor_quota")
         if case.get("zero_quota_worker") and case["pool"] != "factory" and wid == 0:
             quota = 0           # a stand-by worker: it starts, takes nothing and ends
-        if quota or quota == 0:
+        if (quota or quota == 0) and not case.get("frac_quota"):
             chunks = {(e["call"], e["idx"] // case["calls"][e["call"]]["chunk"]) for e in es if e["ev"] == "item"}
             if len(chunks) > quota:
                 out.append(("quota-exceeded", f"worker wid={wid} processed {len(chunks)} chunks, quota is {quota}"))
